@@ -291,6 +291,10 @@ pub fn judge(ctx: &mut Ctx, path_of_uri: &str, registered: &[usize], o: &Outcome
 pub fn run(cfg: &RunCfg) -> Ctx {
     let mut all = Ctx::new();
     all.merge(par_cases(cfg, "routes", cfg.n(12_000, 16 * 20_000), || (), |_, rng, ctx, _| case(rng, ctx)));
+    all.merge(par_cases(cfg, "h2", cfg.n(120, 16 * 400), || (), |_, rng, ctx, _| h2_case(rng, ctx)));
+    all.floor("h2.calls", 100);
+    all.floor("h2.handler_runs", 10);
+    all.floor("h2.unimplemented", 10);
     for k in ["path.exact", "path.case-flip", "path.method-extended", "path.service-extended", "path.extra-segment", "path.empty-segment", "path.middle-segment", "path.trailing-slash", "path.percent-method", "path.cross-method", "path.query",
         "style.0", "style.1", "style.2", "observed.handler_runs", "observed.unimplemented"] {
         all.floor(k, 5);
@@ -373,4 +377,142 @@ fn case(rng: &mut Rng, ctx: &mut Ctx) {
         ctx.fingerprint(format!("{}|n{}|s{}{}|hit{}|{}", class, n, style1, style2, hit as u8, path.len().min(12)), class != "exact" || hit);
         ctx.sample(case_json);
     }
+}
+
+fn add_router<L>(r: tonic::transport::server::Router<L>, i: usize, h: H) -> tonic::transport::server::Router<L> {
+    match i {
+        0 => r.add_service(r0::s_server::SServer::new(h)),
+        1 => r.add_service(r1::sx_server::SxServer::new(h)),
+        2 => r.add_service(r2::s_server::sServer::new(h)),
+        3 => r.add_service(r3::s_server::SServer::new(h)),
+        4 => r.add_service(r4::s_server::SServer::new(h)),
+        5 => r.add_service(r5::s_server::SServer::new(h)),
+        6 => r.add_service(r6::s_s_server::SSServer::new(h)),
+        7 => r.add_service(r7::a_server::aServer::new(h)),
+        8 => r.add_service(r8::m_server::MServer::new(h)),
+        9 => r.add_service(r9::s_server::SServer::new(h)),
+        10 => r.add_service(r10::a_s_server::aSServer::new(h)),
+        _ => r.add_service(r11::s_server::SServer::new(h)),
+    }
+}
+
+/// The same oracle through the real transport: `Server::builder()` (add_routes / add_service /
+/// add_optional_service(None) first) served over the in-memory pipe, paths sent by
+/// `tonic::client::Grpc::unary` with an arbitrary `PathAndQuery`.
+fn h2_case(rng: &mut Rng, ctx: &mut Ctx) {
+    use crate::transport::*;
+    use hyper_util::rt::TokioIo;
+    use tokio::sync::mpsc;
+    use tonic::transport::{Endpoint, Server};
+    let n = rng.urange(0, 5).min(REGISTRY.len());
+    let mut idx: Vec<usize> = (0..REGISTRY.len()).collect();
+    rng.shuffle(&mut idx);
+    let order: Vec<usize> = idx[..n].to_vec();
+    let style = rng.below(3);
+    let via = rng.below(3); // 0 add_routes, 1 add_optional_service(None) then add_routes-equivalent, 2 add_service chain of the first + routes
+    let wrap = rng.u64() as u32;
+    let h = H { log: Arc::new(Mutex::new(Vec::new())) };
+    let paths: Vec<(String, &'static str)> = (0..8)
+        .map(|_| {
+            let (p, class) = gen_path(rng);
+            if class == "exact" && !order.is_empty() && rng.bool() {
+                let i = *rng.pick(&order);
+                (format!("/{}/{}", REGISTRY[i].0, rng.pick(REGISTRY[i].1)), class)
+            } else {
+                (p, class)
+            }
+        })
+        .collect();
+    let case_json = json!({"registered": order.iter().map(|&i| REGISTRY[i].0).collect::<Vec<_>>(), "style": style, "via": via, "paths": paths.iter().map(|p| p.0.clone()).collect::<Vec<_>>()});
+    ctx.begin("h2-setup", case_json.clone());
+    let pcfg = if rng.bool() { PipeCfg::plain() } else { PipeCfg::gen(rng) };
+    let seed = rng.u64();
+    let rt = paused_rt();
+    let h2c = h.clone();
+    let order2 = order.clone();
+    let results: Result<Vec<(String, &'static str, Result<String, i32>, Vec<String>)>, String> = rt.block_on(async move {
+        let routes = build_routes(&order2, style, wrap, &h2c);
+        let (tx, rx) = mpsc::unbounded_channel();
+        let router = match via {
+            1 => {
+                // first registration is an absent optional service, the rest through Router::add_service
+                let _ = routes;
+                let mut r = Server::builder().add_optional_service(None::<r0::s_server::SServer<H>>);
+                for &i in &order2 {
+                    r = add_router(r, i, h2c.clone());
+                }
+                r
+            }
+            _ => Server::builder().add_routes(routes),
+        };
+        let st = tokio::spawn(async move {
+            let _ = router.serve_with_incoming(crate::props::c14::Incoming(rx)).await;
+        });
+        let connector = tower::service_fn(move |_u: http::Uri| {
+            let tx = tx.clone();
+            async move {
+                let (a, b, _h) = pipe("c10", pcfg, Rng::new(seed), None);
+                let _ = tx.send(Ok::<_, std::io::Error>(b));
+                Ok::<_, std::io::Error>(TokioIo::new(a))
+            }
+        });
+        let ch = Endpoint::from_static("http://verif.test:50051").connect_with_connector(connector).await.map_err(|e| format!("connect: {}", e))?;
+        let mut out = Vec::new();
+        for (p, class) in paths {
+            let enc: String = p.bytes().map(|b| if b.is_ascii() && b != b' ' { (b as char).to_string() } else { format!("%{:02X}", b) }).collect();
+            let Ok(pq) = http::uri::PathAndQuery::try_from(enc.as_str()) else { continue };
+            if pq.path().is_empty() {
+                continue;
+            }
+            h2c.log.lock().unwrap().clear();
+            let mut grpc = tonic::client::Grpc::new(ch.clone());
+            if grpc.ready().await.is_err() {
+                return Err("channel not ready".into());
+            }
+            let path_str = pq.path().to_string();
+            let r = tokio::time::timeout(std::time::Duration::from_secs(60), grpc.unary(tonic::Request::new(Msg::default()), pq, tonic::codec::ProstCodec::<Msg, Msg>::default())).await;
+            let r = match r {
+                Err(_) => return Err(format!("call to {:?} did not resolve within 60 virtual seconds", path_str)),
+                Ok(Ok(resp)) => Ok(resp.into_inner().tag),
+                Ok(Err(s)) => Err(s.code() as i32),
+            };
+            let ran = h2c.log.lock().unwrap().clone();
+            out.push((path_str, class, r, ran));
+        }
+        st.abort();
+        Ok(out)
+    });
+    drop(rt);
+    let results = match results {
+        Ok(r) => r,
+        Err(e) => {
+            ctx.violation("h2-setup-or-hang", e);
+            return;
+        }
+    };
+    for (path, class, r, ran) in results {
+        ctx.set_class(class);
+        ctx.count("h2.calls");
+        let target: Option<String> = order.iter().flat_map(|&i| REGISTRY[i].1.iter().map(move |m| format!("/{}/{}", REGISTRY[i].0, m))).find(|p| *p == path);
+        match target {
+            Some(t) => {
+                ctx.count("h2.handler_runs");
+                if ran != vec![t.clone()] || r != Ok(t.clone()) {
+                    ctx.violation("exact-path-misrouted", format!("[h2] path {:?} should run exactly {}, ran {:?}, reply {:?}", path, t, ran, r));
+                }
+            }
+            None => {
+                if !ran.is_empty() {
+                    ctx.violation("handler-reached", format!("[h2] path {:?} names no registered method but reached {:?}", path, ran));
+                }
+                if r != Err(12) {
+                    ctx.violation("not-unimplemented", format!("[h2] path {:?} answered {:?} (want UNIMPLEMENTED)", path, r));
+                } else {
+                    ctx.count("h2.unimplemented");
+                }
+            }
+        }
+        ctx.fingerprint(format!("h2|{}|n{}|s{}|via{}", class, n, style, via), true);
+    }
+    ctx.sample(case_json);
 }
